@@ -146,7 +146,15 @@ def sdt(x) -> str:
         return f"<{type(e).__name__}>"
 
 
+def _step(d):
+    import routes
+    bad = routes.date_out_of_step(d)
+    if bad:
+        raise AssertionError("OUT-OF-STEP " + bad)
+
+
 def sl(r) -> str:
+    _step(r.date)
     return ints(r.date._days_since_epoch, r.nanosecond_of_day)
 
 
@@ -614,9 +622,59 @@ def ordinals():
     return sorted(_info)
 
 
-def mkperiod(c):
+def _period_plain(c):
     return _P().Period._ctor(years=c[0], months=c[1], weeks=c[2], days=c[3], hours=c[4], minutes=c[5], seconds=c[6],
                              milliseconds=c[7], ticks=c[8], nanoseconds=c[9])
+
+
+PERIOD_ROUTES = {}
+
+
+def mkperiod(c):
+    """The Period with components c - by the constructor, or as the RESULT of Period arithmetic on periods that have
+    ALREADY BEEN USED (applied to a time / date-time), or built by a PeriodBuilder, chosen deterministically from the
+    components. Equal periods must behave equally however they were made (a period that memoises something when it
+    is first applied must not hand a wrong memo on to its sums and differences)."""
+    P = _P()
+    c = list(c)
+    k = (sum(abs(v) for v in c) + c[4] * 3 + c[9]) % 5
+    r = None
+    try:
+        if k in (1, 2):
+            a = [v // 2 for v in c]
+            b = [v - w for v, w in zip(c, a)]
+            if k == 2:
+                a, b = [v + 3 for v in c], [3] * 10           # c = a - b
+            pa, pb = _period_plain(a), _period_plain(b)
+            for q in (pa, pb):                                 # use both operands first (outcome irrelevant)
+                try:
+                    if q.has_time_component and not q.has_date_component:
+                        lt_of(12 * 3600 * 10**9) + q
+                    elif not q.has_time_component:
+                        P.LocalDate(2001, 5, 15) + q
+                    else:
+                        P.LocalDateTime(2001, 5, 15, 12, 0, 0) + q
+                except Exception:  # noqa: BLE001
+                    pass
+            r = pa + pb if k == 1 else pa - pb
+        elif k == 3:
+            r = _period_plain(c)
+            try:
+                if not r.has_date_component:
+                    lt_of(0) + r                               # an already-applied period object
+                else:
+                    P.LocalDateTime(1999, 12, 31, 23, 59, 59) + r
+            except Exception:  # noqa: BLE001
+                pass
+        if r is not None and pcomps(r) != tuple(c):
+            r = None
+    except Exception:  # noqa: BLE001
+        r = None
+    if r is None:
+        k = 0
+        r = _period_plain(c)
+    PERIOD_ROUTES[k] = PERIOD_ROUTES.get(k, 0) + 1
+    return r
 
 
 def pcomps(p):
@@ -640,25 +698,34 @@ def apply_route(x, p, route):
     raise ValueError("route " + route)
 
 
+def _routed_fields_date(o, y, m, d):
+    import routes
+    b = _P().LocalDate(y, m, d, info(o)[0])          # raises for invalid fields, as before
+    return routes.routed_date(info(o)[0], b._days_since_epoch, salt=y + m)
+
+
 def impl_full(t):
     P = _P()
     op = t[0]
     if op == "ldtf.period":
         route, o = t[1], int(t[2])
         y, m, d, nod = (int(x) for x in t[3:7])
-        x = P.LocalDate(y, m, d, info(o)[0]) + lt_of(nod)
+        x = _routed_fields_date(o, y, m, d) + lt_of(nod)
         r = apply_route(x, mkperiod([int(a) for a in t[7:17]]), route)
+        _step(r.date)
         return ints(r.year, r.month, r.day, r.nanosecond_of_day)
     if op == "ldtf.unit":
         o = int(t[2])
         y, m, d, nod, n = (int(x) for x in t[3:8])
-        x = P.LocalDate(y, m, d, info(o)[0]) + lt_of(nod)
+        x = _routed_fields_date(o, y, m, d) + lt_of(nod)
         r = getattr(x, "plus_" + t[1])(n)
+        _step(r.date)
         return ints(r.year, r.month, r.day, r.nanosecond_of_day)
     if op == "datef.period":
         route, o = t[1], int(t[2])
         y, m, d = (int(x) for x in t[3:6])
-        r = apply_route(P.LocalDate(y, m, d, info(o)[0]), mkperiod([int(a) for a in t[6:16]]), route)
+        r = apply_route(_routed_fields_date(o, y, m, d), mkperiod([int(a) for a in t[6:16]]), route)
+        _step(r)
         return ints(r.year, r.month, r.day)
     if op == "timef.period":
         r = apply_route(lt_of(int(t[2])), mkperiod([int(a) for a in t[3:13]]), t[1])
